@@ -52,7 +52,7 @@ WORDS = {
     "warm": "WWWWWR",
     "showers": "NRNMNRN",
     "hot": "WWHWWDR",
-    "coolnights": "WKWWKRWKH",
+    "coolnights": "WKWWKRWKH", "scorch": "TTTWTTR",
 }
 
 
